@@ -34,6 +34,9 @@ type c20op struct {
 // middle octets exchanged per UE: they collide under every hash or index that ignores the order of the octets (XOR,
 // sum) or looks only at the first or last octets - the place where per-key state added to the library (a key schedule
 // cache, a per-key context) would be shared between UEs.
+// c20operatorRecord: one operator's subscription template (OP only), copied per UE.
+var c20operatorRecord = tglib.GetAuthSubscription("00000000000000000000000000000000", "", "0102030405060708090a0b0c0d0e0f10")
+
 func c20key(ue int, salt byte) [16]byte {
 	var k [16]byte
 	for i := range k {
@@ -229,8 +232,13 @@ func c20single() []c20op {
 			suci := stgutg.EncodeSuci([]byte(imsi), 2)
 			first := append([]byte{}, suci.Buffer...)
 			u := stgutg.CreateUE(imsi, ue, fmt.Sprintf("%x", c20key(ue, 21)), fmt.Sprintf("%x", c20key(ue, 22)), "")
-			capab := tglib.NewRanUeContext(u.Supi, int64(ue), uint8(ue%3), uint8(1+ue%2)).GetUESecurityCapability()
-			return fmt.Sprintf("%x %x %s %d %x %v", first, suci.Buffer, u.Supi, u.RanUeNgapId, capab.Buffer, u.AuthenticationSubs.PermanentKey.PermanentKeyValue)
+			ctx := tglib.NewRanUeContext(u.Supi, int64(ue), uint8(ue%3), uint8(1+ue%2))
+			capab := ctx.GetUESecurityCapability()
+			// the 5GMM capability handed out is the caller's to adapt (S1 mode off for this UE): what the next UE is handed must not show it
+			mm := ctx.Get5GMMCapability()
+			before := mm.Octet[0]
+			mm.Octet[0] = byte(0x10 + ue)
+			return fmt.Sprintf("%x %x %s %d %x %v %x", first, suci.Buffer, u.Supi, u.RanUeNgapId, capab.Buffer, u.AuthenticationSubs.PermanentKey.PermanentKeyValue, before)
 		}},
 		{"identifier conversions", func(ue int) string {
 			plmn := nasConvert.PlmnIDToNas(models.PlmnId{Mcc: fmt.Sprintf("%03d", 200+ue), Mnc: fmt.Sprintf("%02d", 10+ue)})
@@ -267,6 +275,18 @@ func c20single() []c20op {
 			rand := c20key(ue, 23)
 			res := u.DeriveRESstarAndSetKey(subs, autn, rand[:], "5G:mnc001.mcc001.3gppnetwork.org", "01", "001")
 			return fmt.Sprintf("%x %x %x %x", res, u.Kamf, u.KnasEnc, u.KnasInt)
+		}},
+		{"DeriveRESstarAndSetKey(OP only, operator record shared)", func(ue int) string {
+			// per-UE copies of one operator record: the structs are copied, the OP/OPc objects behind them are the operator's
+			u := tglib.NewRanUeContext(fmt.Sprintf("imsi-00101000000003%d", ue), int64(ue), 2, 2)
+			subs := c20operatorRecord
+			k := c20key(ue, 26)
+			subs.PermanentKey = &models.PermanentKey{PermanentKeyValue: fmt.Sprintf("%x", k)}
+			var autn [16]byte
+			autn[2] = byte(ue + 1)
+			rand := c20key(ue, 27)
+			res := u.DeriveRESstarAndSetKey(subs, autn, rand[:], "5G:mnc001.mcc001.3gppnetwork.org", "01", "001")
+			return fmt.Sprintf("%x %x %x %x opc=%q", res, u.Kamf, u.KnasEnc, u.KnasInt, c20operatorRecord.Opc.OpcValue)
 		}},
 		{"NASEncode(NIA0,NEA0) short message", func(ue int) string {
 			u := tglib.NewRanUeContext("imsi-001010000000001", int64(ue), 0, 0)
